@@ -165,9 +165,9 @@ func (p *Parser) parseOperand() (core.Object, error) {
 	// Boolean or null
 	if c == 't' || c == 'f' || c == 'n' {
 		// Check if it's actually an operator
-		// Peek ahead to see if followed by whitespace
+		// The keyword ends at white space or at a delimiter ("[true]", "<</K false>>")
 		end := p.pos
-		for end < len(p.data) && !isWhitespace(p.data[end]) {
+		for end < len(p.data) && !isWhitespace(p.data[end]) && !isDelimiter(p.data[end]) {
 			end++
 		}
 		token := string(p.data[p.pos:end])
